@@ -212,10 +212,10 @@ Print Assumptions gen_insert_post_matches_model.
 Theorem gen_extract_pre_matches_model : forall (cmp : Z -> Z -> Z) (nk nv : Z -> Z) (size okey ovalue : Z), 0 <= size < 4611686018427387904 -> res_eq (gen_extract_pre cmp nk nv size okey ovalue) (ref_extract_pre nk nv size okey ovalue).
 Proof. exact gen_extract_pre_eq. Qed.
 Print Assumptions gen_extract_pre_matches_model.
-Theorem gen_extract_step_matches_model : forall (cmp : Z -> Z -> Z) (kf : Z -> Z), cmp_ok cmp kf -> forall (nk nv : Z -> Z) (i size last : Z), 0 <= i < 4611686018427387904 -> 0 <= size < 4611686018427387904 -> 0 <= last < 4611686018427387904 -> res_eq (gen_extract_step cmp nk nv i size last) (ref_extract_step kf nk nv i size last).
+Theorem gen_extract_step_matches_model : forall (cmp : Z -> Z -> Z) (kf : Z -> Z), cmp_ok cmp kf -> forall (nk nv : Z -> Z) (i last size : Z), 0 <= i < 4611686018427387904 -> 0 <= size < 4611686018427387904 -> 0 <= last < 4611686018427387904 -> res_eq (gen_extract_step cmp nk nv i last size) (ref_extract_step kf nk nv i last size).
 Proof. exact gen_extract_step_eq. Qed.
 Print Assumptions gen_extract_step_matches_model.
-Theorem gen_extract_post_matches_model : forall (cmp : Z -> Z -> Z) (nk nv : Z -> Z) (i size okey ovalue last : Z), res_eq (gen_extract_post cmp nk nv i size okey ovalue last) (ref_extract_post nk nv i size okey ovalue last).
+Theorem gen_extract_post_matches_model : forall (cmp : Z -> Z -> Z) (nk nv : Z -> Z) (i last size okey ovalue : Z), res_eq (gen_extract_post cmp nk nv i last size okey ovalue) (ref_extract_post nk nv i last size okey ovalue).
 Proof. exact gen_extract_post_eq. Qed.
 Print Assumptions gen_extract_post_matches_model.
 Theorem gen_remove_pre_matches_model : forall (cmp : Z -> Z -> Z) (nk nv : Z -> Z) (node size : Z), - (4611686018427387904) < node < 4611686018427387904 -> 0 <= size < 4611686018427387904 -> res_eq (gen_remove_pre cmp nk nv node size) (ref_remove_pre nk nv node size).
@@ -224,7 +224,7 @@ Print Assumptions gen_remove_pre_matches_model.
 Theorem gen_remove_step_matches_model : forall (cmp : Z -> Z -> Z) (kf : Z -> Z), cmp_ok cmp kf -> forall (nk nv : Z -> Z) (idx last size : Z), 0 <= idx < 4611686018427387904 -> 0 <= size < 4611686018427387904 -> 0 <= last < 4611686018427387904 -> res_eq (gen_remove_step cmp nk nv idx last size) (ref_remove_step kf nk nv idx last size).
 Proof. exact gen_remove_step_eq. Qed.
 Print Assumptions gen_remove_step_matches_model.
-Theorem gen_remove_post_matches_model : forall (cmp : Z -> Z -> Z) (nk nv : Z -> Z) (idx size last : Z), res_eq (gen_remove_post cmp nk nv idx size last) (ref_remove_post nk nv idx size last).
+Theorem gen_remove_post_matches_model : forall (cmp : Z -> Z -> Z) (nk nv : Z -> Z) (idx last size : Z), res_eq (gen_remove_post cmp nk nv idx last size) (ref_remove_post nk nv idx last size).
 Proof. exact gen_remove_post_eq. Qed.
 Print Assumptions gen_remove_post_matches_model.
 Theorem gen_find_pre_matches_model : forall (cmp : Z -> Z -> Z) (nk nv : Z -> Z), res_eq (gen_find_pre cmp nk nv) (ref_find_pre nk nv).
@@ -254,7 +254,7 @@ Print Assumptions gen_ins_outer_step_matches_model.
 Theorem gen_ins_inner_step_matches_model : forall (cmp : Z -> Z -> Z) (kf : Z -> Z), cmp_ok cmp kf -> forall (pa pb : Z -> Z) (j tmp : Z), 0 <= j < 4611686018427387904 -> res_eq (gen_ins_inner_step cmp pa pb j tmp) (ref_ins_inner_step kf pa pb j tmp).
 Proof. exact gen_ins_inner_step_eq. Qed.
 Print Assumptions gen_ins_inner_step_matches_model.
-Theorem gen_ins_inner_post_matches_model : forall (cmp : Z -> Z -> Z) (pa pb : Z -> Z) (j tmp i : Z), 0 <= i < 4611686018427387904 -> res_eq (gen_ins_inner_post cmp pa pb j tmp i) (ref_ins_inner_post pa pb j tmp i).
+Theorem gen_ins_inner_post_matches_model : forall (cmp : Z -> Z -> Z) (pa pb : Z -> Z) (j i tmp : Z), 0 <= i < 4611686018427387904 -> res_eq (gen_ins_inner_post cmp pa pb j i tmp) (ref_ins_inner_post pa pb j i tmp).
 Proof. exact gen_ins_inner_post_eq. Qed.
 Print Assumptions gen_ins_inner_post_matches_model.
 Theorem gen_ins_outer_post_matches_model : forall (cmp : Z -> Z -> Z) (pa pb : Z -> Z) (i : Z), res_eq (gen_ins_outer_post cmp pa pb i) (ref_ins_outer_post pa pb i).
@@ -272,7 +272,7 @@ Print Assumptions gen_shell_mid_step_matches_model.
 Theorem gen_shell_inner_step_matches_model : forall (cmp : Z -> Z -> Z) (kf : Z -> Z), cmp_ok cmp kf -> forall (pa pb : Z -> Z) (j inc tmp : Z), 0 <= j < 4611686018427387904 -> 0 <= inc < 4611686018427387904 -> res_eq (gen_shell_inner_step cmp pa pb j inc tmp) (ref_shell_inner_step kf pa pb j inc tmp).
 Proof. exact gen_shell_inner_step_eq. Qed.
 Print Assumptions gen_shell_inner_step_matches_model.
-Theorem gen_shell_inner_post_matches_model : forall (cmp : Z -> Z -> Z) (pa pb : Z -> Z) (j tmp i : Z), 0 <= i < 4611686018427387904 -> res_eq (gen_shell_inner_post cmp pa pb j tmp i) (ref_shell_inner_post pa pb j tmp i).
+Theorem gen_shell_inner_post_matches_model : forall (cmp : Z -> Z -> Z) (pa pb : Z -> Z) (j i tmp : Z), 0 <= i < 4611686018427387904 -> res_eq (gen_shell_inner_post cmp pa pb j i tmp) (ref_shell_inner_post pa pb j i tmp).
 Proof. exact gen_shell_inner_post_eq. Qed.
 Print Assumptions gen_shell_inner_post_matches_model.
 Theorem gen_shell_mid_post_matches_model : forall (cmp : Z -> Z -> Z) (pa pb : Z -> Z) (i inc : Z), 0 <= inc < 4611686018427387904 -> res_eq (gen_shell_mid_post cmp pa pb i inc) (ref_shell_mid_post pa pb i inc).
@@ -299,7 +299,7 @@ Print Assumptions gen_hsort_drain_post_matches_model.
 Theorem gen_mrec_pre_matches_model : forall (cmp : Z -> Z -> Z) (pa pb : Z -> Z) (left right : Z) (a1 b1 a2 b2 : Z -> Z), 0 <= left < 4611686018427387904 -> 0 <= right < 4611686018427387904 -> res_eq (gen_mrec_pre cmp pa pb left right a1 b1 a2 b2) (ref_mrec_pre pa pb left right a1 b1 a2 b2).
 Proof. exact gen_mrec_pre_eq. Qed.
 Print Assumptions gen_mrec_pre_matches_model.
-Theorem gen_mrec_merge_step_matches_model : forall (cmp : Z -> Z -> Z) (kf : Z -> Z), cmp_ok cmp kf -> forall (pa pb : Z -> Z) (l r idx center right : Z), 0 <= l < 4611686018427387904 -> 0 <= r < 4611686018427387904 -> 0 <= idx < 4611686018427387904 -> 0 <= center < 4611686018427387904 -> 0 <= right < 4611686018427387904 -> res_eq (gen_mrec_merge_step cmp pa pb l r idx center right) (ref_mrec_merge_step kf pa pb l r idx center right).
+Theorem gen_mrec_merge_step_matches_model : forall (cmp : Z -> Z -> Z) (kf : Z -> Z), cmp_ok cmp kf -> forall (pa pb : Z -> Z) (l r idx center right : Z), 0 <= l < 4611686018427387904 -> 0 <= r < 4611686018427387904 -> 0 <= idx < 4611686018427387904 -> 0 <= center < 4611686018427387904 -> 0 <= right < 4611686018427387904 -> l <= center -> r <= right -> idx <= right -> res_eq (gen_mrec_merge_step cmp pa pb l r idx center right) (ref_mrec_merge_step kf pa pb l r idx center right).
 Proof. exact gen_mrec_merge_step_eq. Qed.
 Print Assumptions gen_mrec_merge_step_matches_model.
 Theorem gen_msort_pre_matches_model : forall (cmp : Z -> Z -> Z) (pa pb : Z -> Z) (count ok : Z) (m a2 : Z -> Z), 0 <= count < 4611686018427387904 -> res_eq (gen_msort_pre cmp pa pb count ok m a2) (ref_msort_pre pa pb count ok m a2).
@@ -314,7 +314,7 @@ Print Assumptions gen_qrec_part_step_matches_model.
 Theorem gen_qrec_up_step_matches_model : forall (cmp : Z -> Z -> Z) (kf : Z -> Z), cmp_ok cmp kf -> forall (pa pb : Z -> Z) (i pivot : Z), 0 <= i < 4611686018427387904 -> res_eq (gen_qrec_up_step cmp pa pb i pivot) (ref_qrec_up_step kf pa pb i pivot).
 Proof. exact gen_qrec_up_step_eq. Qed.
 Print Assumptions gen_qrec_up_step_matches_model.
-Theorem gen_qrec_up_post_matches_model : forall (cmp : Z -> Z -> Z) (pa pb : Z -> Z) (i j pivot : Z), res_eq (gen_qrec_up_post cmp pa pb i j pivot) (ref_qrec_up_post pa pb i j pivot).
+Theorem gen_qrec_up_post_matches_model : forall (cmp : Z -> Z -> Z) (pa pb : Z -> Z) (i pivot j : Z), res_eq (gen_qrec_up_post cmp pa pb i pivot j) (ref_qrec_up_post pa pb i pivot j).
 Proof. exact gen_qrec_up_post_eq. Qed.
 Print Assumptions gen_qrec_up_post_matches_model.
 Theorem gen_qrec_down_step_matches_model : forall (cmp : Z -> Z -> Z) (kf : Z -> Z), cmp_ok cmp kf -> forall (pa pb : Z -> Z) (j pivot : Z), 0 < j < 4611686018427387904 -> res_eq (gen_qrec_down_step cmp pa pb j pivot) (ref_qrec_down_step kf pa pb j pivot).
@@ -338,13 +338,13 @@ Print Assumptions gen_qsort_pre_matches_model.
 Theorem model_sift_up_is_insert_step : forall (kf : nat -> Z) (f : nat) (ns : list node) (idx k v : nat) (nk nv : Z -> Z) (cap size : Z), rep ns nk nv -> (idx < length ns)%nat -> let r := ref_insert_step (kfz kf) nk nv (Z.of_nat idx) (Z.of_nat k) in g_tag r = 10 /\ (exists idx' : nat, g_vals r = [Z.of_nat idx'] /\ (idx' < length ns)%nat /\ (exists ns' : list node, rep ns' (g_a r) (g_b r) /\ length ns' = length ns /\ sift_up kf (S f) ns idx k v = sift_up kf f ns' idx' k v)) \/ g_tag r = 50 /\ g_vals r = [Z.of_nat idx] /\ (let p := ref_insert_post (g_a r) (g_b r) (Z.of_nat idx) cap size (Z.of_nat k) (Z.of_nat v) in g_tag p = 0 /\ (exists ns' : list node, rep ns' (g_a p) (g_b p) /\ sift_up kf (S f) ns idx k v = Some ns')).
 Proof. exact sift_up_is_insert_step. Qed.
 Print Assumptions model_sift_up_is_insert_step.
-Theorem model_sift_down_is_extract_step : forall (kf : nat -> Z) (f : nat) (ns : list node) (i lidx sz : nat) (nk nv : Z -> Z) (ok ov : Z), rep ns nk nv -> (lidx < length ns)%nat -> (sz < lidx)%nat -> (i < length ns)%nat -> let last := getn ns lidx in let r := ref_extract_step (kfz kf) nk nv (Z.of_nat i) (Z.of_nat sz) (Z.of_nat lidx) in g_tag r = 10 /\ (exists c : nat, g_vals r = [Z.of_nat c] /\ (c < length ns)%nat /\ (exists ns' : list node, rep ns' (g_a r) (g_b r) /\ length ns' = length ns /\ getn ns' lidx = last /\ sift_down kf (S f) ns i last sz = sift_down kf f ns' c last sz)) \/ g_tag r = 50 /\ g_vals r = [Z.of_nat i] /\ (let p := ref_extract_post (g_a r) (g_b r) (Z.of_nat i) (Z.of_nat sz) ok ov (Z.of_nat lidx) in g_tag p = 0 /\ (exists ns' : list node, rep ns' (g_a p) (g_b p) /\ sift_down kf (S f) ns i last sz = Some ns')).
+Theorem model_sift_down_is_extract_step : forall (kf : nat -> Z) (f : nat) (ns : list node) (i lidx sz : nat) (nk nv : Z -> Z) (ok ov : Z), rep ns nk nv -> (lidx < length ns)%nat -> (sz < lidx)%nat -> (i < length ns)%nat -> let last := getn ns lidx in let r := ref_extract_step (kfz kf) nk nv (Z.of_nat i) (Z.of_nat lidx) (Z.of_nat sz) in g_tag r = 10 /\ (exists c : nat, g_vals r = [Z.of_nat c] /\ (c < length ns)%nat /\ (exists ns' : list node, rep ns' (g_a r) (g_b r) /\ length ns' = length ns /\ getn ns' lidx = last /\ sift_down kf (S f) ns i last sz = sift_down kf f ns' c last sz)) \/ g_tag r = 50 /\ g_vals r = [Z.of_nat i] /\ (let p := ref_extract_post (g_a r) (g_b r) (Z.of_nat i) (Z.of_nat lidx) (Z.of_nat sz) ok ov in g_tag p = 0 /\ (exists ns' : list node, rep ns' (g_a p) (g_b p) /\ sift_down kf (S f) ns i last sz = Some ns')).
 Proof. exact sift_down_is_extract_step. Qed.
 Print Assumptions model_sift_down_is_extract_step.
-Theorem model_remove_loop_is_remove_step : forall (kf : nat -> Z) (f : nat) (ns : list node) (idx lidx sz : nat) (nk nv : Z -> Z), rep ns nk nv -> (lidx < length ns)%nat -> (sz < lidx)%nat -> (1 <= idx <= sz)%nat -> let last := getn ns lidx in let r := ref_remove_step (kfz kf) nk nv (Z.of_nat idx) (Z.of_nat lidx) (Z.of_nat sz) in g_tag r = 10 /\ (exists c : nat, g_vals r = [Z.of_nat c] /\ (1 <= c <= sz)%nat /\ (exists ns' : list node, rep ns' (g_a r) (g_b r) /\ length ns' = length ns /\ getn ns' lidx = last /\ remove_loop kf (S f) ns idx last sz = remove_loop kf f ns' c last sz)) \/ g_tag r = 50 /\ g_vals r = [Z.of_nat idx] /\ (let p := ref_remove_post (g_a r) (g_b r) (Z.of_nat idx) (Z.of_nat sz) (Z.of_nat lidx) in g_tag p = 0 /\ (exists ns' : list node, rep ns' (g_a p) (g_b p) /\ remove_loop kf (S f) ns idx last sz = Some ns')).
+Theorem model_remove_loop_is_remove_step : forall (kf : nat -> Z) (f : nat) (ns : list node) (idx lidx sz : nat) (nk nv : Z -> Z), rep ns nk nv -> (lidx < length ns)%nat -> (sz < lidx)%nat -> (1 <= idx <= sz)%nat -> let last := getn ns lidx in let r := ref_remove_step (kfz kf) nk nv (Z.of_nat idx) (Z.of_nat lidx) (Z.of_nat sz) in g_tag r = 10 /\ (exists c : nat, g_vals r = [Z.of_nat c] /\ (1 <= c <= sz)%nat /\ (exists ns' : list node, rep ns' (g_a r) (g_b r) /\ length ns' = length ns /\ getn ns' lidx = last /\ remove_loop kf (S f) ns idx last sz = remove_loop kf f ns' c last sz)) \/ g_tag r = 50 /\ g_vals r = [Z.of_nat idx] /\ (let p := ref_remove_post (g_a r) (g_b r) (Z.of_nat idx) (Z.of_nat lidx) (Z.of_nat sz) in g_tag p = 0 /\ (exists ns' : list node, rep ns' (g_a p) (g_b p) /\ remove_loop kf (S f) ns idx last sz = Some ns')).
 Proof. exact remove_loop_is_remove_step. Qed.
 Print Assumptions model_remove_loop_is_remove_step.
-Theorem model_ins_inner_is_inner_step : forall (kf : nat -> Z) (tmp base j : nat) (a : list nat) (pa pb : Z -> Z) (i : Z), repa base a pa -> (base + j < length a)%nat -> let r := ref_ins_inner_step (kfz kf) pa pb (Z.of_nat j) (Z.of_nat tmp) in g_tag r = 11 /\ (exists j' : nat, j = S j' /\ g_vals r = [Z.of_nat j'] /\ (exists a' : list nat, repa base a' (g_a r) /\ length a' = length a /\ ins_inner kf tmp base j a = ins_inner kf tmp base j' a')) \/ g_tag r = 51 /\ g_vals r = [Z.of_nat j] /\ (let p := ref_ins_inner_post (g_a r) (g_b r) (Z.of_nat j) (Z.of_nat tmp) i in g_tag p = 10 /\ (exists a' : list nat, repa base a' (g_a p) /\ ins_inner kf tmp base j a = a')).
+Theorem model_ins_inner_is_inner_step : forall (kf : nat -> Z) (tmp base j : nat) (a : list nat) (pa pb : Z -> Z) (i : Z), repa base a pa -> (base + j < length a)%nat -> let r := ref_ins_inner_step (kfz kf) pa pb (Z.of_nat j) (Z.of_nat tmp) in g_tag r = 11 /\ (exists j' : nat, j = S j' /\ g_vals r = [Z.of_nat j'] /\ (exists a' : list nat, repa base a' (g_a r) /\ length a' = length a /\ ins_inner kf tmp base j a = ins_inner kf tmp base j' a')) \/ g_tag r = 51 /\ g_vals r = [Z.of_nat j] /\ (let p := ref_ins_inner_post (g_a r) (g_b r) (Z.of_nat j) i (Z.of_nat tmp) in g_tag p = 10 /\ (exists a' : list nat, repa base a' (g_a p) /\ ins_inner kf tmp base j a = a')).
 Proof. exact ins_inner_is_inner_step. Qed.
 Print Assumptions model_ins_inner_is_inner_step.
 Theorem model_scan_up_is_up_step : forall (kf : nat -> Z) (f : nat) (a : list nat) (pa pb : Z -> Z) (pivot i : nat), repa 0 a pa -> (S i < length a)%nat -> let r := ref_qrec_up_step (kfz kf) pa pb (Z.of_nat i) (Z.of_nat pivot) in g_vals r = [Z.of_nat (S i)] /\ g_a r = pa /\ (g_tag r = 11 /\ scan_up kf (S f) a pivot i = scan_up kf f a pivot (S i) \/ g_tag r = 51 /\ scan_up kf (S f) a pivot i = Some (S i)).
